@@ -488,6 +488,22 @@ def sql_alias(prog: Program) -> RuleResult:
     f = prog.method(tr.qual, "_walk_attribute_chain", inherited=False)
     ok = any(isinstance(n, ast.Assign) and src(n.targets[0]) == "current_dao" and "alias" in src(n.value) for n in walk_local(f.node))
     r.check(ok, "EQLTranslator._walk_attribute_chain#continues-from-alias", site(f), "", "the chain continues from the alias that was joined", "the chain does not continue from the joined alias")
+    # "this table is in the statement" is recorded for exactly the FROM element that was joined: a relationship path joins an *alias* of the
+    # target class, which stands for that path only - recording the class itself as joined makes an equality with a variable of that class
+    # a plain condition on a table that is not in the statement (or on the path's rows), instead of the JOIN the variable needs
+    n = 0
+    for g in sorted(tr.methods.values(), key=lambda x: x.qual):
+        for c in calls_in(g.node):
+            if call_name(c) == "add_table_join" and c.args:
+                n += 1
+                what = src(c.args[0])
+                joined = [src(j.args[0]) for j in calls_in(g.node) if call_name(j) in ("join", "outerjoin") and j.args and "sql_query" in src(j.func)]
+                r.check(what in joined, f"{g.short}#table-join-record-matches-the-join", site(g, c), src(c)[:80], f"{what} is what the statement joined in this method",
+                        f"{g.short} records {what} as joined while the statement joined {joined or 'nothing'}: the alias of a relationship path (d.handle) is taken for the table of "
+                        "a variable (h = let(Handle, ...)), so entity(d, d.handle.size > 1, d.world == h.world) gets no JOIN for h and loses the rows h multiplies - with the two "
+                        "conditions swapped the answer is right")
+    if n == 0:
+        raise AnalysisError("SQL-ALIAS: the translator never records a table as joined (add_table_join)")
     return r
 
 
